@@ -62,7 +62,8 @@ func RepoDir() string {
 // NewSys assembles (VerifAssemble) but does not start the operator.
 // cluster may be nil (a fresh fake cluster is created).
 func NewSys(hs *HookSet, cluster *fake.Cluster) (*Sys, error) {
-	kubeeventsmanager.DefaultFactoryStore.Reset()
+	// a fresh store, not Reset(): a bubble abandoned as frozen may still hold the old store's mutex
+	kubeeventsmanager.DefaultFactoryStore = kubeeventsmanager.NewFactoryStore()
 	if cluster == nil {
 		cluster = fake.NewFakeCluster(fake.ClusterVersionV127)
 	}
